@@ -4,6 +4,7 @@ T1 only Alg.update advances iter, by one, after _update(); __init__ may only set
 T2 every _done contains the budget test iter >= max_iter as a disjunct; Alg.done() returns _done()
 T3 tol-based disjuncts: breakdown flag or `measure <= tol`; a difference-form measure covers every caller-provided
    solution array that _update writes in place
+T3z no progress measure is a difference of two names for the same storage (a "snapshot" taken without a copy)
 T4 App.run: one alg.update() per loop iteration, guarded by `not alg.done()`, returns _output()
 T5 PowerMethod: x <- A(x)/||A(x)|| with the same quantity reported as the eigenvalue estimate
 Not decided: monotonicity of the eigenvalue estimate (numerical).
@@ -18,6 +19,20 @@ from ..model import AnchorMissing, Unrecognised, calls_in, is_self_attr, unparse
 from ..paths import calls_on_path, enumerate_paths
 from ..linopdesc import havoc_loop
 from ..vn import NONE, VN, State, cond_text
+from ..zerodiff import ZeroDiff
+
+CTL_T3Z = """
+class C:
+    def _update(self):
+        z_old = self.z
+        for i in range(len(self.L)):
+            self.z[i] = self.prox(self.L[i] @ self.x)
+        x_old = self.x
+        self.x = self.step(self.x)
+        for i in range(len(self.L)):
+            self.s = self.z[i] - z_old[i]
+        self.r = self.x - x_old
+"""
 
 ALG = "sigpy.alg.Alg"
 REAL = {"self.iter", "self.max_iter", "self.tol", "self.resid", "self.residual", "self.alpha", "self.lamda2"}
@@ -37,6 +52,8 @@ def check(run, M, tier):
     run.rule("T2", "every _done returns a disjunction containing `self.iter >= self.max_iter`; done() returns _done()")
     run.rule("T3", "every other disjunct of a tol-based _done is a breakdown flag or `measure <= tol`; if the measure is a norm of state differences it "
                    "contains the change of every caller-provided solution array that _update writes in place")
+    run.rule("T3z", "no difference `v - v_old` in an algorithm is identically zero because v_old is the same object as v "
+                    "(bound without a copy while v is only updated in place)")
     run.rule("T4", "App.run loops `while not alg.done()` with exactly one alg.update() per iteration and returns self._output()")
     run.rule("T5", "PowerMethod._update: y = A(x); estimate = ||y|| (or norm_func(y)); x <- y / estimate")
     base = M.cls(ALG)
@@ -113,6 +130,27 @@ def check(run, M, tier):
             run.info("T3 skipped for SDMM: its eps_pri/eps_dual criterion has no tol parameter (outside the tol = 0 clause)")
             continue
         _t3(run, M, eff, c, f, others)
+
+    # ---------------------------------------------------------------- T3z
+    n_fn = 0
+    for c in [base] + algs:
+        for f in sorted((g for g in M.funcs.values() if g.cls is c), key=lambda g: g.qual):
+            n_fn += 1
+            hits = ZeroDiff(f).run()
+            for node, text, attr, bind in hits:
+                run.bad("T3z", f.qual, f.loc(node), "%s computes `%s`, which is zero for every input: both operands are the object held in self.%s "
+                        "(`%s` binds it without a copy and self.%s is only updated in place afterwards), so a stopping test built on it never "
+                        "sees that part of the state move" % (f.qual, text, attr, unparse(bind) if bind is not None else "?", attr), stmt=node)
+            if not hits:
+                run.ok("T3z", f.qual, "no difference of two names for the same storage", f.loc())
+    run.floor("T3z", 30, n_fn, "methods of Alg subclasses")
+    ctl = ast.parse(CTL_T3Z).body[0].body[0]
+
+    class _F:
+        node = ctl
+    got = [t for _, t, _, _ in ZeroDiff(_F).run()]
+    run.control("T3z", "z_old = self.z; self.z[i] = ...; self.z[i] - z_old[i]", True, "self.z[i] - z_old[i]" in got)
+    run.control("T3z", "x_old = self.x; self.x = step(self.x); self.x - x_old", False, "self.x - x_old" in got)
 
     # ---------------------------------------------------------------- T4
     _t4(run, M)
